@@ -6,7 +6,9 @@
 (* <<child, role, platform, inline>> in document order (duplicates kept);      *)
 (* refs: <<referrer, subject, artifact type>>; dtags: <<tag, on, to>>;         *)
 (* fbs: the fall-back referrer indexes <<index, subject>> a source without     *)
-(* referrers API holds under the tag sha256-<hex of subject>; uniq / uniqfb:    *)
+(* referrers API holds under the tag sha256-<hex of subject>; long: objects     *)
+(* named by a sha512 digest (their fall-back tag is truncated, hence no digest  *)
+(* tag); uniq / uniqfb:                                                         *)
 (* objects that exactly one descriptor, referrer edge or digest tag names       *)
 (* (without / with those fall-back indexes), used by (D)'s reduction.           *)
 EXTENDS TLC
@@ -17,6 +19,7 @@ Shape_img == [root |-> "M",
   kids |-> ("M" :> <<<<"C", "config", "", FALSE>>, <<"L1", "layer", "", FALSE>>, <<"L2", "layer", "", FALSE>>>>),
   refs |-> {},
   dtags |-> {},
+  long |-> {},
   fbs |-> {},
   uniq |-> {"C", "L1", "L2", "M"},
   uniqfb |-> {"C", "L1", "L2", "M"},
@@ -28,6 +31,7 @@ Shape_dup == [root |-> "M",
   kids |-> ("M" :> <<<<"C", "config", "", FALSE>>, <<"L1", "layer", "", FALSE>>, <<"L1", "layer", "", FALSE>>, <<"L2", "layer", "", FALSE>>, <<"L1", "layer", "", FALSE>>>>),
   refs |-> {},
   dtags |-> {},
+  long |-> {},
   fbs |-> {},
   uniq |-> {"C", "L2", "M"},
   uniqfb |-> {"C", "L2", "M"},
@@ -41,6 +45,7 @@ Shape_idx2 == [root |-> "I",
            ("I" :> <<<<"M1", "entry", "linux/amd64", FALSE>>, <<"M2", "entry", "linux/arm64", FALSE>>>>),
   refs |-> {},
   dtags |-> {},
+  long |-> {},
   fbs |-> {},
   uniq |-> {"L1", "C1", "C2", "M1", "M2", "I"},
   uniqfb |-> {"L1", "C1", "C2", "M1", "M2", "I"},
@@ -56,6 +61,7 @@ Shape_nested == [root |-> "O",
            ("O" :> <<<<"N", "entry", "linux/amd64", FALSE>>, <<"M2", "entry", "linux/arm64", FALSE>>>>),
   refs |-> {},
   dtags |-> {},
+  long |-> {},
   fbs |-> {},
   uniq |-> {"C1", "C2", "M1", "M2", "I", "N", "O"},
   uniqfb |-> {"C1", "C2", "M1", "M2", "I", "N", "O"},
@@ -72,6 +78,7 @@ Shape_art == [root |-> "M",
            ("FB:R1" :> <<<<"RR", "entry", "", FALSE>>>>),
   refs |-> {<<"R1", "M", "sbom">>, <<"R2", "M", "sig">>, <<"RR", "R1", "sig">>},
   dtags |-> {},
+  long |-> {},
   fbs |-> {<<"FB:M", "M">>, <<"FB:R1", "R1">>},
   uniq |-> {"C", "L1", "M", "B1", "B2", "B3", "R1", "R2", "RR"},
   uniqfb |-> {"C", "L1", "M", "B1", "B2", "B3", "FB:M", "FB:R1"},
@@ -89,6 +96,7 @@ Shape_artidx == [root |-> "I",
            ("FB:I" :> <<<<"RI", "entry", "", FALSE>>>>),
   refs |-> {<<"R1", "M1", "sbom">>, <<"RI", "I", "sig">>},
   dtags |-> {},
+  long |-> {},
   fbs |-> {<<"FB:M1", "M1">>, <<"FB:I", "I">>},
   uniq |-> {"C1", "C2", "M1", "M2", "I", "B1", "B2", "R1", "RI"},
   uniqfb |-> {"C1", "C2", "M1", "M2", "I", "B1", "B2", "FB:M1", "FB:I"},
@@ -101,6 +109,7 @@ Shape_bentry == [root |-> "I",
            ("I" :> <<<<"M1", "entry", "linux/amd64", FALSE>>, <<"X", "bentry", "", FALSE>>, <<"Y", "uentry", "", FALSE>>>>),
   refs |-> {},
   dtags |-> {},
+  long |-> {},
   fbs |-> {},
   uniq |-> {"C1", "L1", "M1", "X", "Y", "I"},
   uniqfb |-> {"C1", "L1", "M1", "X", "Y", "I"},
@@ -114,6 +123,7 @@ Shape_docker == [root |-> "DL",
            ("DL" :> <<<<"D1", "entry", "linux/amd64", FALSE>>, <<"D2", "entry", "linux/arm64", FALSE>>>>),
   refs |-> {},
   dtags |-> {},
+  long |-> {},
   fbs |-> {},
   uniq |-> {"C1", "C2", "D1", "D2", "DL"},
   uniqfb |-> {"C1", "C2", "D1", "D2", "DL"},
@@ -125,6 +135,7 @@ Shape_schema1 == [root |-> "S1",
   kids |-> ("S1" :> <<<<"L1", "layer", "", FALSE>>, <<"L2", "layer", "", FALSE>>>>),
   refs |-> {},
   dtags |-> {},
+  long |-> {},
   fbs |-> {},
   uniq |-> {"L1", "L2", "S1"},
   uniqfb |-> {"L1", "L2", "S1"},
@@ -136,6 +147,7 @@ Shape_ext == [root |-> "M",
   kids |-> ("M" :> <<<<"C", "config", "", FALSE>>, <<"L1", "layer", "", FALSE>>, <<"LX", "ext", "", FALSE>>>>),
   refs |-> {},
   dtags |-> {},
+  long |-> {},
   fbs |-> {},
   uniq |-> {"C", "L1", "LX", "M"},
   uniqfb |-> {"C", "L1", "LX", "M"},
@@ -147,6 +159,7 @@ Shape_empty == [root |-> "M",
   kids |-> ("M" :> <<<<"C", "config", "", FALSE>>, <<"L0", "layer", "", TRUE>>, <<"L1", "layer", "", FALSE>>>>),
   refs |-> {},
   dtags |-> {},
+  long |-> {},
   fbs |-> {},
   uniq |-> {"C", "L0", "L1", "M"},
   uniqfb |-> {"C", "L0", "L1", "M"},
@@ -159,6 +172,7 @@ Shape_inline == [root |-> "I",
            ("I" :> <<<<"M", "entry", "linux/amd64", TRUE>>>>),
   refs |-> {},
   dtags |-> {},
+  long |-> {},
   fbs |-> {},
   uniq |-> {"C", "L1", "M", "I"},
   uniqfb |-> {"C", "L1", "M", "I"},
@@ -171,6 +185,7 @@ Shape_dtag == [root |-> "M",
            ("S" :> <<<<"CS", "config", "", FALSE>>, <<"LS", "layer", "", FALSE>>>>),
   refs |-> {},
   dtags |-> {<<"dt:S", "M", "S">>},
+  long |-> {},
   fbs |-> {},
   uniq |-> {"C", "L1", "M", "CS", "LS", "S"},
   uniqfb |-> {"C", "L1", "M", "CS", "LS", "S"},
@@ -183,6 +198,7 @@ Shape_loop == [root |-> "M",
            ("S" :> <<<<"CS", "config", "", FALSE>>, <<"LS", "layer", "", FALSE>>>>),
   refs |-> {},
   dtags |-> {<<"dt:S", "M", "S">>, <<"dt:M", "S", "M">>},
+  long |-> {},
   fbs |-> {},
   uniq |-> {"C", "L1", "CS", "LS", "S"},
   uniqfb |-> {"C", "L1", "CS", "LS", "S"},
@@ -199,6 +215,7 @@ Shape_diamond == [root |-> "T",
            ("T" :> <<<<"IA", "entry", "linux/amd64", FALSE>>, <<"IB", "entry", "linux/amd64", FALSE>>>>),
   refs |-> {},
   dtags |-> {},
+  long |-> {},
   fbs |-> {},
   uniq |-> {"L", "LA", "LB", "CS", "CA", "CB", "OA", "OB", "IA", "IB", "T"},
   uniqfb |-> {"L", "LA", "LB", "CS", "CA", "CB", "OA", "OB", "IA", "IB", "T"},
@@ -212,6 +229,7 @@ Shape_diamond2 == [root |-> "T",
            ("T" :> <<<<"M", "entry", "linux/amd64", FALSE>>, <<"I", "entry", "linux/amd64", FALSE>>>>),
   refs |-> {},
   dtags |-> {},
+  long |-> {},
   fbs |-> {},
   uniq |-> {"C", "L", "I", "T"},
   uniqfb |-> {"C", "L", "I", "T"},
@@ -225,6 +243,7 @@ Shape_artshare == [root |-> "A",
            ("FB:A" :> <<<<"R", "entry", "", FALSE>>>>),
   refs |-> {<<"R", "A", "sig">>},
   dtags |-> {},
+  long |-> {},
   fbs |-> {<<"FB:A", "A">>},
   uniq |-> {"LA", "LR", "A", "R"},
   uniqfb |-> {"LA", "LR", "A", "FB:A"},
@@ -240,6 +259,7 @@ Shape_sha512 == [root |-> "I",
            ("FB:M5" :> <<<<"R5", "entry", "", FALSE>>>>),
   refs |-> {<<"R5", "M5", "sig">>},
   dtags |-> {},
+  long |-> {"L5", "C5", "M5", "B5"},
   fbs |-> {<<"FB:M5", "M5">>},
   uniq |-> {"L1", "C5", "C2", "M5", "M2", "E", "B5", "R5", "I"},
   uniqfb |-> {"L1", "C5", "C2", "M5", "M2", "E", "B5", "I", "FB:M5"},
@@ -252,6 +272,7 @@ Shape_inlinebad == [root |-> "I",
            ("I" :> <<<<"M", "entry", "linux/amd64", FALSE>>>>),
   refs |-> {},
   dtags |-> {},
+  long |-> {},
   fbs |-> {},
   uniq |-> {"C", "L1", "M", "I"},
   uniqfb |-> {"C", "L1", "M", "I"},
@@ -265,6 +286,7 @@ Shape_dupentry == [root |-> "I",
            ("I" :> <<<<"M", "entry", "linux/amd64", FALSE>>, <<"M", "entry", "linux/386", FALSE>>, <<"M2", "entry", "linux/arm64", FALSE>>>>),
   refs |-> {},
   dtags |-> {},
+  long |-> {},
   fbs |-> {},
   uniq |-> {"C", "C2", "M2", "I"},
   uniqfb |-> {"C", "C2", "M2", "I"},
@@ -276,6 +298,7 @@ Shape_big == [root |-> "M",
   kids |-> ("M" :> <<<<"C", "config", "", FALSE>>, <<"LB", "layer", "", FALSE>>, <<"L2", "layer", "", FALSE>>>>),
   refs |-> {},
   dtags |-> {},
+  long |-> {},
   fbs |-> {},
   uniq |-> {"C", "LB", "L2", "M"},
   uniqfb |-> {"C", "LB", "L2", "M"},
@@ -293,6 +316,7 @@ Shape_xref == [root |-> "I",
            ("FB:M2" :> <<<<"X2", "entry", "", FALSE>>>>),
   refs |-> {<<"X1", "M1", "sig">>, <<"X2", "M2", "sig">>},
   dtags |-> {},
+  long |-> {},
   fbs |-> {<<"FB:M1", "M1">>, <<"FB:M2", "M2">>},
   uniq |-> {"C1", "C2", "I", "X1", "X2"},
   uniqfb |-> {"C1", "C2", "I", "FB:M1", "FB:M2"},
